@@ -1308,6 +1308,14 @@ fn k1_listed() -> bool {
 }
 
 pub fn eval_programs(sum: &mut Summary, programs: &[Program], sxr: bool, nbins: usize, tag: &str) {
+    let mut sink = Vec::new();
+    eval_programs_v(sum, programs, sxr, nbins, tag, &mut sink);
+}
+
+/// as `eval_programs`; additionally returns the verdict of the property-level line of every program
+pub fn eval_programs_v(sum: &mut Summary, programs: &[Program], sxr: bool, nbins: usize, tag: &str, per_program: &mut Vec<Verdict>) {
+    per_program.clear();
+    per_program.resize(programs.len(), Verdict::Ok);
     let prop = sum.property.clone();
     let results = match compile::run_batch(&format!("{}-{}", prop, tag), programs, sxr, nbins) {
         Ok(r) => r,
@@ -1430,6 +1438,7 @@ pub fn eval_programs(sum: &mut Summary, programs: &[Program], sxr: bool, nbins: 
             continue; // classified as a known finding before the model was asked
         }
         let v = verdicts.get(&format!("c{}", i)).cloned().unwrap_or(Verdict::Bad("no verdict".into()));
+        per_program[i] = v.clone();
         sum.evaluations += 1;
         *sum.verdicts.entry(v.kind().to_string()).or_insert(0) += 1;
         if let Verdict::Gen(g) = &v {
@@ -1457,6 +1466,86 @@ pub fn eval_programs(sum: &mut Summary, programs: &[Program], sxr: bool, nbins: 
             sum.failures.push(Failure { kind: v.kind().to_string(), what: v.text(), case: compile::program_json(p, r) });
         }
     }
+}
+
+fn strip_digits(s: &str) -> String {
+    s.chars().filter(|c| !c.is_ascii_digit()).collect()
+}
+
+/// all documents obtained by removing one piece (a document, a child subtree, an attribute, a text) from the history
+fn program_reductions(docs: &[Doc]) -> Vec<Vec<Doc>> {
+    fn node_reductions(n: &Node) -> Vec<Node> {
+        let mut out = Vec::new();
+        for i in 0..n.items.len() {
+            if matches!(n.items[i], Item::Elem(_) | Item::Text(_) | Item::CData(_) | Item::Comment(_) | Item::PI(_)) {
+                let mut m = n.clone();
+                m.items.remove(i);
+                out.push(m);
+            }
+        }
+        for i in 0..n.attrs.len() {
+            let mut m = n.clone();
+            m.attrs.remove(i);
+            out.push(m);
+        }
+        for i in 0..n.items.len() {
+            if let Item::Elem(c) = &n.items[i] {
+                for r in node_reductions(c) {
+                    let mut m = n.clone();
+                    m.items[i] = Item::Elem(r);
+                    out.push(m);
+                }
+            }
+        }
+        out
+    }
+    let mut out = Vec::new();
+    if docs.len() > 1 {
+        for i in 0..docs.len() {
+            let mut d = docs.to_vec();
+            d.remove(i);
+            out.push(d);
+        }
+    }
+    for i in 0..docs.len() {
+        for r in node_reductions(&docs[i].root) {
+            let mut d = docs.to_vec();
+            d[i] = Doc { prolog: vec![], root: r, epilog: vec![] };
+            out.push(d);
+        }
+    }
+    // big removals first
+    out.sort_by_key(|d| d.iter().map(|x| x.root.size()).sum::<usize>());
+    out
+}
+
+/// greedy reduction of a failing program (C02 / C13): keep removing one piece as long as the property-level verdict
+/// stays a violation of the same kind; every round compiles its candidates in one batch
+fn shrink_program(prop: &str, sxr: bool, docs: Vec<Doc>, what: &str, budget: std::time::Duration) -> Vec<Doc> {
+    let t0 = Instant::now();
+    let want = strip_digits(what);
+    let opt = if sxr { OptRec::sxr() } else { OptRec::quick() };
+    let mut cur = docs;
+    for round in 0..12 {
+        if t0.elapsed() > budget {
+            break;
+        }
+        let cands: Vec<Vec<Doc>> = program_reductions(&cur).into_iter().take(48).collect();
+        let programs: Vec<(usize, Program)> = cands.iter().enumerate().filter_map(|(i, d)| compile::make_program(d.clone(), "shrink", &opt).map(|p| (i, p))).collect();
+        if programs.is_empty() {
+            break;
+        }
+        let ps: Vec<Program> = programs.iter().map(|(_, p)| p.clone()).collect();
+        let mut tmp = Summary::new(prop, "quick", 0, "shrink");
+        let mut verdicts = Vec::new();
+        eval_programs_v(&mut tmp, &ps, sxr, threads(), &format!("shrink{}", round), &mut verdicts);
+        let hit = verdicts.iter().position(|v| matches!(v, Verdict::Prop(w) if strip_digits(w) == want));
+        match hit {
+            Some(k) => cur = cands[programs[k].0].clone(),
+            None => break,
+        }
+    }
+    cur
 }
 
 pub fn check_compile(sum: &mut Summary, sxr: bool) {
@@ -1493,6 +1582,29 @@ pub fn check_compile(sum: &mut Summary, sxr: bool) {
         programs.extend(gen_programs(&mut rng, n, sxr, thorough));
         eval_programs(sum, &programs, sxr, threads(), &format!("{}", done));
         done += n;
+    }
+    // reduce the failing programs (at most two, time-capped)
+    let todo: Vec<usize> = sum.failures.iter().enumerate().filter(|(_, f)| f.kind == "PROP" && f.case["kind"] == "program").map(|(i, _)| i).take(2).collect();
+    for i in todo {
+        let docs: Vec<Doc> = sum.failures[i].case["documents"].as_array().map(|a| a.iter().filter_map(|d| crate::xmlread::read_doc(d.as_str().unwrap_or("").as_bytes())).collect()).unwrap_or_default();
+        if docs.is_empty() {
+            continue;
+        }
+        let what = sum.failures[i].what.clone();
+        let small = shrink_program(&prop, sxr, docs.clone(), &what, std::time::Duration::from_secs(if thorough { 240 } else { 90 }));
+        if small.iter().map(|d| d.root.size()).sum::<usize>() < docs.iter().map(|d| d.root.size()).sum::<usize>() {
+            let opt = if sxr { OptRec::sxr() } else { OptRec::quick() };
+            if let Some(p) = compile::make_program(small, "shrunk", &opt) {
+                let mut tmp = Summary::new(&prop, "quick", 0, "shrunk");
+                let mut v = Vec::new();
+                eval_programs_v(&mut tmp, &[p], sxr, 1, "shrunk", &mut v);
+                if let Some(f) = tmp.failures.into_iter().find(|f| f.kind == "PROP") {
+                    let mut case = f.case.clone();
+                    case["shrunk_from_bytes"] = json!(docs.iter().map(|d| d.to_xml().len()).sum::<usize>());
+                    sum.failures[i] = Failure { kind: "PROP".into(), what: f.what, case };
+                }
+            }
+        }
     }
     let mut hits = Vec::new();
     if sum.extra.get("known_hits_K1").and_then(|v| v.as_u64()).unwrap_or(0) > 0 {
